@@ -904,7 +904,6 @@ package lisp
 
 //@ func builtinSlice
 //@   requires rtOK(env) && argsOK(args, 4) && lvalOK(args.Cells[1])
-//@   requires [no-integer-list-to-text-conversion] (args.Cells[0].Str != "string" && args.Cells[0].Str != "bytes") || args.Cells[1].Type == LString || args.Cells[1].Type == LBytes
 //@   ensures  [list-view-shares-the-range-and-is-capacity-clamped] old(args.Cells[0].Str) == "list" && old(args.Cells[1].Type) == LSExpr && result.Type != LError ==> result.Type == LSExpr && fresh(result) && cap(result.Cells) == len(result.Cells) && arr(result.Cells) == old(arr(args.Cells[1].Cells)) && off(result.Cells) == old(off(args.Cells[1].Cells)) + old(args.Cells[2].Int) && len(result.Cells) == old(args.Cells[3].Int) - old(args.Cells[2].Int) && result.sealed == old(args.Cells[1].sealed)
 //@   ensures  [bytes-view-is-capacity-clamped] old(args.Cells[0].Str) == "bytes" && old(args.Cells[1].Type) == LBytes && result.Type != LError ==> result.Type == LBytes && fresh(result) && typeis(result.Native, *[]byte) && cap(*result.Native.(*[]byte)) == len(*result.Native.(*[]byte)) && arr(*result.Native.(*[]byte)) == old(arr(*args.Cells[1].Native.(*[]byte)))
 //@   ensures  [vector-from-a-sealed-list-is-a-copy] old(args.Cells[0].Str) == "vector" && old(args.Cells[1].Type) == LSExpr && old(args.Cells[1].sealed) && result.Type == LArray && old(args.Cells[3].Int) > old(args.Cells[2].Int) ==> arr(result.Cells[1].Cells) != old(arr(args.Cells[1].Cells))
